@@ -3,6 +3,8 @@ import LexVerif.Proof.WriteRadixInt
 import LexVerif.Proof.WriteBinaryShape
 import LexVerif.Proof.WriteRadixFrac
 import LexVerif.Proof.WriteRadixIntText
+import LexVerif.Proof.WriteRadixRound
+import LexVerif.Proof.WriteRadixError
 import Mathlib.Tactic.SplitIfs
 /-!
 # C07 — generic-radix float output
@@ -117,6 +119,7 @@ section RadixFull
 open LexVerif.Model LexVerif.Model.WriteRadix LexVerif.Model.WriteRadixInt
 open LexVerif.Proof.WriteRadixF LexVerif.Proof.WriteRadixWF LexVerif.Proof.WriteRadixTerm
 open LexVerif.Proof.WriteRadixTermInt LexVerif.Proof.WriteRadixFrac LexVerif.Proof.WriteRadixInteger
+open LexVerif.Proof.WriteRadixRound LexVerif.Proof.WriteRadixError
 open LexVerif.Model.WriteInt (Res)
 
 /-- binary32 or binary64 (radix.rs runs in the float's own type) -/
@@ -135,14 +138,14 @@ theorem genericRadices_bounds : ∀ r ∈ genericRadices, 3 ≤ r ∧ r ≤ 36 :
 
 /-! ### 3a. well-formedness -/
 
-/-- **C07 well-formedness, code as it is in /repo now.** For every finite binary32/binary64 pattern, every generic
-radix, every format with that mantissa radix (any exponent radix ≥ 2), every feature set and every option set with
-default `max_significant_digits`: whatever `radix::write_float` writes is a non-empty run of digits below the radix,
-optionally the decimal point and digits below the radix, optionally the exponent character, an optional sign and
-digits of the exponent radix. No exclusion hypothesis. -/
+/-- **C07 well-formedness, code as it is in /repo now (dbb7ae7, f386e72, 2de23fc).** For every finite
+binary32/binary64 pattern, every generic radix, every format with that mantissa radix (any exponent radix ≥ 2), every
+feature set and EVERY option set (max/min significant digits, rounding mode, breaks, trim, punctuation): whatever
+`radix::write_float` writes is a non-empty run of digits below the radix, optionally the decimal point and digits
+below the radix, optionally the exponent character, an optional sign and digits of the exponent radix. No exclusion. -/
 theorem radix_wellformed {f : Fmt} (hf : StdFmt f) {r : Nat} (hr : r ∈ genericRadices) (feats : Features)
     (fmt : Format) (hfr : fmt.mantissaRadix = r) (her : 2 ≤ fmt.exponentRadix) (o : WOpts)
-    (ho : o.maxDigits = none) {bits : Nat} (hb : bits < f.infBits) (len : Nat) {text : List Nat}
+    {bits : Nat} (hb : bits < f.infBits) (len : Nat) {text : List Nat}
     (hw : WriteRadix.writeFloat true feats f fmt o bits len = .ok text) :
     WellFormed r fmt.exponentRadix o.dp o.exp text := by
   obtain ⟨h3, h36⟩ := genericRadices_bounds r hr
@@ -161,7 +164,7 @@ theorem radix_wellformed {f : Fmt} (hf : StdFmt f) {r : Nat} (hr : r ∈ generic
       · simp only [Res.ok.injEq] at hw
         subst hw
         obtain ⟨hd, hne⟩ := generate_digitBytes hf.fok (by omega) h36 (hf.radix_lt h36) (hf.predOne hr) hb hg
-        have := layoutText_wellFormed (WriteFloat.effFmt feats fmt) feats o ho (by omega : 0 < r)
+        have := layoutText_wellFormed_all (WriteFloat.effFmt feats fmt) feats o (by omega : 2 ≤ r) h36
           (by rw [effFmt_exponentRadix]; exact her) g hd hne hl
         rwa [effFmt_exponentRadix] at this
     | fault => rw [hl] at hw; simp at hw
@@ -174,7 +177,7 @@ generation left in the scratch buffer is a digit of the radix (the integer bytes
 snapshot (`cf = false`) this hypothesis fails exactly on the recorded round-up finding (`snapshot_roundup_invalid_digit`). -/
 theorem radix_wellformed_of_valid_fraction (cf : Bool) {f : Fmt} (hf : StdFmt f) {r : Nat} (hr : r ∈ genericRadices)
     (feats : Features) (fmt : Format) (hfr : fmt.mantissaRadix = r) (her : 2 ≤ fmt.exponentRadix) (o : WOpts)
-    (ho : o.maxDigits = none) {bits : Nat} (len : Nat) {g : Gen} (hg : generate cf f r bits = .ok g)
+    {bits : Nat} (len : Nat) {g : Gen} (hg : generate cf f r bits = .ok g)
     (hfrac : ∀ c ∈ g.fracs, DigitByte r c) {text : List Nat}
     (hw : WriteRadix.writeFloat cf feats f fmt o bits len = .ok text) :
     WellFormed r fmt.exponentRadix o.dp o.exp text := by
@@ -196,7 +199,7 @@ theorem radix_wellformed_of_valid_fraction (cf : Bool) {f : Fmt} (hf : StdFmt f)
         rcases List.mem_append.mp hc with hc | hc
         · exact hints c hc
         · exact hfrac c hc
-      have := layoutText_wellFormed (WriteFloat.effFmt feats fmt) feats o ho (by omega : 0 < r)
+      have := layoutText_wellFormed_all (WriteFloat.effFmt feats fmt) feats o (by omega : 2 ≤ r) h36
         (by rw [effFmt_exponentRadix]; exact her) g hd hne hl
       rwa [effFmt_exponentRadix] at this
   | fault => rw [hl] at hw; simp at hw
@@ -230,23 +233,44 @@ theorem repaired_roundup_example :
     WriteRadix.writeFloat true featsRadix f32 fmt3 {} 0x3f471c71 256 = .ok [48, 46, 50, 49] := by decide +kernel
 
 example : WellFormed 3 3 46 101 [48, 46, 50, 49] :=
-  radix_wellformed (Or.inr rfl) (by decide) featsRadix fmt3 (by decide) (by decide) {} rfl (by decide) 256
+  radix_wellformed (Or.inr rfl) (by decide) featsRadix fmt3 (by decide) (by decide) {} (by decide) 256
     repaired_roundup_example
 
-/-- decided witness for the restriction `max_significant_digits = none` (finding class C14-generic-digit-options):
-binary32 1/9 in radix 3 with `max_significant_digits = 2` is written `"0.01\0"` — a NUL byte -/
-theorem max_digits_emits_nul :
+/-- regression (finding class C14-generic-digit-options, repaired in /repo 2de23fc): binary32 1/9 in radix 3 with
+`max_significant_digits = 2` was written `"0.01\\0"` (a NUL byte read past the digits); now `"0.01"` -/
+theorem max_digits_regression :
     WriteRadix.writeFloat true featsRadix f32 fmt3 { maxDigits := some 2, negBreak := some (-20) } 0x3de38e39 256
-      = .ok [48, 46, 48, 49, 0] := by decide +kernel
+      = .ok [48, 46, 48, 49] := by decide +kernel
 
-/-- NEW finding, decided on the model (and replayed on the implementation, `radix+format`): with
-`required_exponent_notation` the zero (and the smallest subnormal, whose digits are all zero) makes
-`write_float_scientific` index `digits[0]` of an empty slice — PANIC with the documented buffer -/
-theorem finding_zero_required_exponent_panics :
-    WriteRadix.writeFloat true featsRadixFormat f64 fmt36req {} 0 256 = .panic
-    ∧ WriteRadix.writeFloat true featsRadixFormat f64 fmt36req {} 1 256 = .panic
-    ∧ WriteRadix.writeFloat true featsRadixFormat f32 fmt36req {} 0 256 = .panic := by
+/-- regression (repaired in /repo f386e72): with `required_exponent_notation` the zero, the negative zero's magnitude and
+the smallest subnormal (whose digits are all zero) PANICked on `digits[0]` of an empty slice; now `"0.0^0"` -/
+theorem zero_required_exponent_regression :
+    WriteRadix.writeFloat true featsRadixFormat f64 fmt36req { exp := 94 } 0 256 = .ok [48, 46, 48, 94, 48]
+    ∧ WriteRadix.writeFloat true featsRadixFormat f64 fmt36req { exp := 94 } 1 256 = .ok [48, 46, 48, 94, 48]
+    ∧ WriteRadix.writeFloat true featsRadixFormat f32 fmt36req { exp := 94, trim := true } 0 256 = .ok [48, 94, 48] := by
   refine ⟨by decide +kernel, by decide +kernel, by decide +kernel⟩
+
+/-- **the writer never PANICs except for a too short `bytes`** (code as in /repo now): for every finite pattern, every
+generic radix, format, feature set and EVERY option set (`max_significant_digits` a `NonZero`), digit generation and the
+layout — `truncate_and_round`, `round_up`, both notations — return; the call PANICs iff the caller's slice is shorter than
+the highest index `hi` touched. Subsumes the two repaired PANICs (zero under `required_exponent_notation`; radix 17 with
+128 significant digits, corpus/C07.ops) and the slice-order / out-of-window reads of the former `truncate_and_round`. -/
+theorem radix_write_total {f : Fmt} (hf : StdFmt f) {r : Nat} (hr : r ∈ genericRadices) (feats : Features)
+    (fmt : Format) (hfr : fmt.mantissaRadix = r) (o : WOpts) (ho : o.maxDigits ≠ some 0)
+    {bits : Nat} (hb : bits < f.infBits) (len : Nat) :
+    ∃ t : Text, WriteRadix.writeFloat true feats f fmt o bits len = if t.hi > len then .panic else .ok t.text := by
+  obtain ⟨h3, h36⟩ := genericRadices_bounds r hr
+  obtain ⟨g, hg, hlen⟩ := generate_total hf.fok (by omega : 2 ≤ r) (hf.radix_lt h36) true hf.fuel.1 hf.fuel.2.1 h36 hb
+  obtain ⟨hd, hne⟩ := generate_digitBytes hf.fok (by omega) h36 (hf.radix_lt h36) (hf.predOne hr) hb hg
+  have hil : g.ints.length < halfSize := by
+    have : f.bias + 2 < halfSize := by rcases hf with rfl | rfl <;> decide
+    omega
+  obtain ⟨t, ht⟩ := layoutText_total (WriteFloat.effFmt feats fmt) feats o ho (by omega : 2 ≤ r) h36 g hd hne hil
+  refine ⟨t, ?_⟩
+  unfold WriteRadix.writeFloat
+  rw [hfr, hg]
+  simp only [Res.bind]
+  rw [ht]
 
 /-! ### 3b. termination / fuel adequacy -/
 
@@ -258,14 +282,14 @@ theorem radix_fraction_terminates (cf : Bool) {f : Fmt} (hf : StdFmt f) {r : Nat
   genFraction_total cf hf.fok hf.fuel.1 hr hr36 (hf.radix_lt hr36) hb
 
 /-- **the integer loops terminate within the scratch buffer**, for every starting value up to `+∞`: the exponent field
-of `integer` drops by at least one per iteration of either loop, at most `bias + 2` bytes are written. -/
+of `integer` drops by at least one per iteration of either loop, at most `bias + 2` (1025 / 129) bytes are written. -/
 theorem radix_integer_terminates {f : Fmt} (hf : StdFmt f) {r : Nat} (hr : 2 ≤ r) (hr36 : r ≤ 36) {x : Nat}
-    (hx : x ≤ f.infBits) : ∃ ints, genInteger f r x = .ok ints :=
+    (hx : x ≤ f.infBits) : ∃ ints, genInteger f r x = .ok ints ∧ ints.length ≤ f.bias + 2 :=
   genInteger_total hf.fok hr (hf.radix_lt hr36) hf.fuel.2.1 hx
 
 /-- **digit generation never PANICs** (both loops, carry included) -/
 theorem radix_generate_total (cf : Bool) {f : Fmt} (hf : StdFmt f) {r : Nat} (hr : 2 ≤ r) (hr36 : r ≤ 36)
-    {bits : Nat} (hb : bits < f.infBits) : ∃ g, generate cf f r bits = .ok g :=
+    {bits : Nat} (hb : bits < f.infBits) : ∃ g, generate cf f r bits = .ok g ∧ g.ints.length ≤ f.bias + 2 :=
   generate_total hf.fok hr (hf.radix_lt hr36) cf hf.fuel.1 hf.fuel.2.1 hr36 hb
 
 /-! ### 3c. integer exactness — the `IeeeExact` assumption discharged -/
@@ -378,6 +402,46 @@ theorem radix_fraction_step_partial {f : Fmt} (hf : StdFmt f) {r : Nat} (hr36 : 
   have := Nat.div_add_mod (Proof.RoundNE.ival f (fmul f x (ofNat f r))) (unit f)
   rw [Nat.mul_comm] at this
   exact this
+
+/-- **accumulated error of the fraction digits (partial result toward the ulp clause).** Whatever the fraction loop
+returns is, for some `n ≥ 1`, the `n`-digit trace `d₁ … dₙ` of the iteration (`fracIter`), either as it stands or after
+the final round-up back-trace; and for that trace, in units of `2^-L` (`U = 2^L` is 1.0, `B = 2^(bias+3)` is half an
+ulp of a float below 64):
+
+    | fraction · rⁿ  −  (d₁…dₙ)ᵣ · U  −  fractionₙ |  ≤  B · (1 + r + … + rⁿ⁻¹)
+
+i.e. `|fraction − 0.d₁…dₙ − fractionₙ·r⁻ⁿ| < 2^(5−p)/(r−1)` — an ABSOLUTE error below `2^-48/(r−1)` (f64),
+`2^-19/(r−1)` (f32). Missing for `C07_radix_error_bound`: (1) for floats below 1 the RELATIVE version during the leading
+zero digits (there `round(x·r)` is the new fraction and the error is `≤ 2^-p` relative per step — this is where the
+hundreds of ulps come from); (2) the exit residual `fractionₙ ≤ deltaₙ ≈ delta₀·rⁿ` and the unit added by the round-up;
+(3) integer digits of floats `≥ 2^p` (zero padding); (4) turning the value distance into a pattern distance. -/
+theorem radix_fraction_error_partial (cf : Bool) {f : Fmt} (hf : StdFmt f) {r : Nat} (hr36 : r ≤ 36)
+    {fuel x delta : Nat} {acc : List Nat} {out : List Nat × List Nat × Bool} (hx : x ≤ one f)
+    (h : fracLoop cf f r (ofNat f r) fuel x delta acc = .ok out) :
+    ∃ n, 1 ≤ n ∧ n ≤ fuel ∧
+      (out = (((fracIter f r n x).1.map (digitToCharConst · r)).reverse ++ acc, [], false) ∨
+       out = backtrace cf r (((fracIter f r n x).1.map (digitToCharConst · r)).reverse ++ acc) []) ∧
+      (fracIter f r n x).1.length = n ∧
+      ofDigits r (fracIter f r n x).1 * unit f + Proof.RoundNE.ival f (fracIter f r n x).2
+        ≤ Proof.RoundNE.ival f x * r ^ n + errB f * geom r n ∧
+      Proof.RoundNE.ival f x * r ^ n
+        ≤ ofDigits r (fracIter f r n x).1 * unit f + Proof.RoundNE.ival f (fracIter f r n x).2 + errB f * geom r n := by
+  obtain ⟨n, h1, h2, h3⟩ := fracLoop_trace cf f r fuel x delta acc out h
+  obtain ⟨e1, _, _, e4, e5⟩ := fracIter_err hf.fok hr36 (hf.radix_lt hr36) n x hx
+  exact ⟨n, h1, h2, h3, e1, e4, e5⟩
+
+/-- the error constant is `2^-48` (f64) / `2^-19` (f32) of 1.0, and the geometric sum is `(rⁿ − 1)/(r − 1)` -/
+example : errB f64 * 2 ^ 48 = unit f64 ∧ errB f32 * 2 ^ 19 = unit f32 := by decide +kernel
+theorem geom_closed {r : Nat} (hr : 1 ≤ r) : ∀ n, geom r n * (r - 1) + 1 = r ^ n
+  | 0 => by simp [geom]
+  | n + 1 => by
+    obtain ⟨k, rfl⟩ : ∃ k, r = k + 1 := ⟨r - 1, by omega⟩
+    have ih := geom_closed hr n
+    simp only [Nat.add_sub_cancel] at ih ⊢
+    unfold geom
+    calc ((k + 1) ^ n + geom (k + 1) n) * k + 1 = (k + 1) ^ n * k + (geom (k + 1) n * k + 1) := by ring
+      _ = (k + 1) ^ n * k + (k + 1) ^ n := by rw [ih]
+      _ = (k + 1) ^ (n + 1) := by ring
 
 /-- on the repaired code the digit is even `< radix` (`fraction.as_u32()` never yields the radix itself) -/
 theorem radix_fraction_digit_lt {f : Fmt} (hf : StdFmt f) {r : Nat} (hr : r ∈ genericRadices) {x : Nat}
